@@ -4,6 +4,8 @@ V = os.path.dirname(os.path.dirname(os.path.abspath(__file__)))
 ALL = ['C%02d' % i for i in range(1, 21)]
 TECH = 'bounded symbolic execution of the real go/ssa (and clang LLVM-IR) of /repo in our own executor; every assertion decided by z3 over all inputs within the stated bounds; counterexamples replayed natively'
 CHECKS = {
+ 'C13': dict(design='6.13', text='Bounded symbolic model checking of hash/*.go from the real constructors: for each (fill level, write length) pair and each API sequence the digest bytes produced by the sponge driver, KMAC framing and SHA-2 wrappers are proved equal, for all message/key contents, to references written from FIPS 202 and SP 800-185 over the same uninterpreted permutation / cSHAKE / SHA-2 stream function; left_encode/right_encode for every 64-bit value, bytepad for every length up to the bound.',
+             note='Trusted: Keccak-f[1600] (uninterpreted; the amd64 assembly is outside), SHA-2 compression and cSHAKE internals (absorb-stream model), go/ssa + executor. Bounds: lengths as listed in evidence; contents unbounded (symbolic).'),
  'C14': dict(design='6.14', text='Bounded symbolic model checking of random/chacha20.go together with the real buffering code of x/crypto/chacha20: seeds, customizers and buffer contents are symbolic, read-size sequences come from a boundary set, the restore point is a symbolic 64-bit counter. z3 decides that every output byte is the byte of the RFC 8439 stream position it should be, relative to an uninterpreted block function.',
              note='Trusted: the ChaCha20 block function (uninterpreted, shared by code and reference); streams < 2^38 bytes; read sizes from the stated set; go/ssa and our executor. Evidence lists functions, bounds, queries.'),
  'C15': dict(design='6.15', text='Bounded symbolic model checking of random/rand.go: UintN for a fully symbolic 64-bit n over an arbitrary byte tape (range, independence from stale buffer bytes, exact uniformity as a solver-checked bijection between preimage sets); Permutation/SubPermutation/Shuffle/Samples for small n with symbolic tapes (validity, swap discipline, injectivity of tape -> outcome).',
